@@ -95,6 +95,11 @@ MIRRORS = {
 }
 
 
+# mirrors whose source produces obligations only when a construct of that kind exists (e.g. a class with a __copy__ hook):
+# zero obligations on today's tree is then not a vanished anchor
+OPTIONAL = set()
+
+
 def _extend(prop, entries):
     MIRRORS.setdefault(prop, []).extend(entries)
 
@@ -148,7 +153,8 @@ def apply(repo, report):
         for o in obs:
             n += 1
             report.ob(rid, f"[{o.rule}] {o.construct}", None if o.state == "UNRECOGNISED" else o.state == "DISCHARGED", facts=o.facts, expected=o.expected, loc=o.loc, why=o.why or "", cases=o.cases)
-        report.floor(rid, f"obligations of {modname}.{fname} ({why})", n, 1)
+        if (pid, modname, fname) not in OPTIONAL:
+            report.floor(rid, f"obligations of {modname}.{fname} ({why})", n, 1)
 
 
 _extend("C14", [("c11", "r2_quality_base", ("C14.X",), ALL, "the expected-error value is the sum of 10^(-Q/10) with Q decoded by the configured quality base")])
@@ -173,3 +179,28 @@ _extend("C17", [("c08", "r3_bestof", (), ALL, "the error count and coordinates p
 _extend("C18", [("c01", "r1_flags", (), _has("aligner flags"), "'^ADAPTER' / 'ADAPTER$' with indels allowed is searched with indels")])
 _extend("C20", [("c06", "r4_statistics_slots", (), ALL, "per-adapter statistics of both reads are merged from every worker")])
 _extend("C04", [("c15", "r1_reserved_name", (), ALL, "two writers never share a demultiplexing file (reads counted as written are in the files)")])
+
+# fifth round
+_hooks = lambda o: any(w in o.construct for w in ("__copy__", "__deepcopy__", "__getstate__", "__setstate__")) and not any(w in o.construct for w in ("ProxyRecordWriter", "ProxyTextFile"))  # noqa: E731
+for _p, _why in (("C03", "the R2 copy of a modifier (copy.copy in the builder) keeps its configuration, e.g. the quality base of the zero capper"),
+                 ("C10", "a shared option acts on R2 through a copy of the modifier built for R1: the copy must be configured identically"),
+                 ("C13", "the R2 copy of the quality trimmer keeps both cutoffs and the quality base")):
+    _extend(_p, [("c06", "r5_pickle", (), _hooks, _why)])
+    OPTIONAL.add((_p, "c06", "r5_pickle"))
+_extend("C02", [("c01", "r7_tuple", (), _has("match_to"), "a match is reported whenever the aligner finds one: no path returns None without asking it")])
+_extend("C02", [("c08", "r2_ambiguity", (), ALL, "an error-free anchored occurrence is removed exactly: a worse index entry never replaces a better one"),
+                ("c08", "r4_eligibility", (), ALL, "adapters searched with read wildcards are not served from the index (which knows only N)")])
+_extend("C03", [("c09", "r1_sibling_cutters", (), ALL, "the --action given applies to R2's adapters as it does to R1's")])
+_extend("C04", [("c14", "r6_reported", (), ALL, "the reported poly-A/poly-T lengths are the numbers of bases removed")])
+_extend("C05", [("builder_rules", "c11_builder", ("quick",), lambda o: o.rule == "C11.R4", "both files of a redirect pair are opened as a pair (R1 to the first, R2 to the second), whatever the input layout"),
+                ("c16", "paired", (), lambda o: o.rule == "C16.R3", "after a swap each mate's matches stay with the info object of the slot it is written to (info-based filters look there)")])
+_extend("C08", [("c01", "r6_comparers", (), ALL, "the one-by-one search of an anchored adapter without indels uses the same tolerance and overlap as the index")])
+_extend("C11", [("c04", "r1_accounting", (), _has("PairedSingleEndStep"), "a pair reaches the filters unless a step really consumed it (an empty read is still a read)")])
+_extend("C12", [("c06", "r3_ordered", (), ALL, "what is in the output when the run fails is a prefix of the correct output: chunks reach the file only in input order")])
+_extend("C13", [("c04", "r7_minimal_columns", (), ALL, "the quality-trimmed columns of the minimal report show R1's and R2's removed bases separately")])
+_extend("C15", [("c05", "r6_pair_adapters", (), ALL, "with --pair-adapters the match that names the output file stems from the adapter pair that was applied")])
+_extend("C16", [("c09", "r6_trimmed", (), ALL, "with and without --revcomp the adapter cutter treats a read the same way (same preparation before matching)"),
+                ("c03", "r1_writers", (), ALL, "the two orientation trials work on the same record objects: neither may write into them")])
+_extend("C17", [("c03", "r4_intervals", (), ALL, "trimmed() of a match, replayed by the info writer on the original read, removes exactly the interval the coordinates describe"),
+                ("c18", "r5_file", (), _has("read_adapters_fasta"), "the adapter name printed is the name of the record the sequence came from")])
+_extend("C18", [("c08", "r4_eligibility", (), ALL, "a record's own indels/noindels setting is honoured when the adapters of a file share one index")])
